@@ -94,7 +94,16 @@ def _tmpdir():
 
 
 def cleanup_tmp():
-    shutil.rmtree(TMPROOT, ignore_errors=True)
+    """Remove stale per-compile temp dirs (older than an hour). Other check runs may be using the
+    same root concurrently, so live directories are never touched; every compile removes its own."""
+    try:
+        now = time.time()
+        for d in os.listdir(TMPROOT):
+            p = os.path.join(TMPROOT, d)
+            if now - os.path.getmtime(p) > 3600:
+                shutil.rmtree(p, ignore_errors=True)
+    except OSError:
+        pass
 
 
 def prune_cache(max_bytes=2 << 30):
@@ -205,6 +214,10 @@ def rustc(source, mode="bin", crate_name="probe", externs=None, edition="2021", 
         cmd.append(src)
         t0 = time.time()
         for attempt in range(3):
+            if not os.path.exists(src):          # the temp dir vanished under us: recreate it
+                os.makedirs(td, exist_ok=True)
+                with open(src, "w") as f:
+                    f.write(source)
             try:
                 p = subprocess.run(cmd, env=env, stdout=subprocess.PIPE, stderr=subprocess.PIPE,
                                    text=True, timeout=timeout, cwd=td)
@@ -214,7 +227,9 @@ def rustc(source, mode="bin", crate_name="probe", externs=None, edition="2021", 
                                       or "can't find crate for `enum_tools`" in p.stderr):
                 raise InfraError("harness extern crate problem:\n" + p.stderr[-1500:])
             if p.returncode != 0 and ("error: linking with" in p.stderr or "No space left" in p.stderr
-                                      or "Cannot allocate memory" in p.stderr):
+                                      or "Cannot allocate memory" in p.stderr or "could not write output" in p.stderr
+                                      or "couldn't create a temp dir" in p.stderr or "error writing dependencies" in p.stderr
+                                      or "failed to write" in p.stderr):
                 if attempt == 2:
                     raise InfraError("linker/system failure (not the code under test):\n" + p.stderr[-2000:])
                 time.sleep(0.5)
